@@ -415,7 +415,7 @@ fn run_typed<D: Dec>(req: &[&str]) -> String {
                     Ok(d2) => {
                         let s2 = d2.to_string();
                         stable = match D::parse_str(&s2) {
-                            Ok(d3) => d3.le() == d2.le() && s2 == s,
+                            Ok(d3) => d3.le() == d2.le(),
                             Err(_) => false,
                         };
                         format!("ok:{}", hex(&d2.le()))
